@@ -346,10 +346,12 @@ func (req *Request) SwapBody(body []byte) []byte {
 	if req.IsBodyStream() {
 		bb.Reset()
 		_, err := utils.CopyZeroAlloc(zw, req.bodyStream)
-		req.CloseBodyStream() //nolint:errcheck
 		if err != nil {
+			// keep the stream: whoever owns the connection still has to drain what was not read
 			bb.Reset()
 			bb.SetString(err.Error())
+		} else {
+			req.CloseBodyStream() //nolint:errcheck
 		}
 	}
 
@@ -700,10 +702,11 @@ func (req *Request) BodyE() ([]byte, error) {
 		bodyBuf.Reset()
 		zw := network.NewWriter(bodyBuf)
 		_, err := utils.CopyZeroAlloc(zw, req.bodyStream)
-		req.CloseBodyStream() //nolint:errcheck
 		if err != nil {
+			// keep the stream: whoever owns the connection still has to drain what was not read
 			return nil, err
 		}
+		req.CloseBodyStream() //nolint:errcheck
 		return req.BodyBytes(), nil
 	}
 	if req.OnlyMultipartForm() {
@@ -728,8 +731,11 @@ func (req *Request) BodyWriteTo(w io.Writer) error {
 	if req.IsBodyStream() {
 		zw := network.NewWriter(w)
 		_, err := utils.CopyZeroAlloc(zw, req.bodyStream)
-		req.CloseBodyStream() //nolint:errcheck
-		return err
+		if err != nil {
+			// keep the stream: whoever owns the connection still has to drain what was not read
+			return err
+		}
+		return req.CloseBodyStream()
 	}
 	if req.OnlyMultipartForm() {
 		return WriteMultipartForm(w, req.multipartForm, req.multipartFormBoundary)
